@@ -17,8 +17,10 @@
    Nothing is assumed about the sample VALUES: no NaN-freedom hypothesis is needed, because a NaN never
    becomes a hit (`v > 0.0`, `middle > first` are false on NaN), so partial_cmp only sees numbers. *)
 From Coq Require Import Floats.
+From Coq Require Import Permutation.
 From AG Require Import Base.Prelude Base.Res Signal.Ring Signal.Ring_proofs Signal.Avalanches Signal.Greedy
   Signal.AvalTotal Signal.AvalTotal_proofs.
+From AG Require Recon.Cluster Recon.Fit.
 
 (* (1) contiguous_ranges: the scan stays inside the 256 slots, the two loops terminate within the stated fuel,
    and the merge of the first and last block never pops or swap_removes an empty vector - for EVERY occupancy
@@ -130,6 +132,84 @@ Theorem C09_avalanches_f64_total :
 Proof. exact avalanches_f64_total_lemma. Qed.
 Print Assumptions C09_avalanches_f64_total.
 
+(* (6) vertex() = filter_map(try_into().ok()) . cluster_spacepoints . filter_map(Track::try_from(..).ok()) .
+   find_vertices (lib.rs:394-406).  The wrapper itself has no panic site of its own: it returns whenever its four
+   stages do (an Err of a stage is dropped by `.ok()`, a panic of a stage unwinds). *)
+Theorem C09_vertex_wrapper_total :
+  forall (A SP TR V : Type) (sp_of : A -> res SP) (cluster : list SP -> res (list (list SP) * list SP))
+         (fit : list SP -> res TR) (find : list TR -> res (option V * list TR)) (Pc : list SP -> Prop)
+         (avs : list A),
+  (forall a, In a avs -> sp_of a <> Panic) ->
+  (forall pts, exists cl rem, cluster pts = Ok (cl, rem) /\ forall c, In c cl -> Pc c) ->
+  (forall c, Pc c -> fit c <> Panic) ->
+  (forall trs, exists r, find trs = Ok r) ->
+  exists v, vertex_res sp_of cluster fit find (Ok avs) = Ok v.
+Proof. exact (@vertex_res_total). Qed.
+Print Assumptions C09_vertex_wrapper_total.
+
+(* PARTIAL.  Full statement wanted: for every event built from banks, vertex() returns.
+   Proved: with the stages instantiated by the models of C15 (cluster_spacepoints_pub over the equality classes
+   of the space points) and C14 (fit_cluster_to_helix, find_vertices), vertex() returns PROVIDED the numeric
+   hypotheses of C14 (N1-N5, V1-V5: the named gaps N3/N4/V3/V4 - cost oracles never NaN, Nelder-Mead returns a
+   vector - are NOT proved anywhere) and
+     (Z1) SpacePoint::try_from does not panic on any avalanche of the event.
+   Where NaN-freedom of (r, phi, z) has to come from - it is needed twice: C15's model identifies a point with its
+   equality class, which exists only if SpacePoint's derived `==` is reflexive (no NaN coordinate:
+   `position(|p| p == x).unwrap()` in the remainder bookkeeping panics otherwise), and (Z1):
+     r    is a value of the drift table (C18_radius_in_range): a number whenever the lookup returns;
+     phi  is the wire azimuth minus a tabulated correction: a number;
+     z    is the centroid zf(row, first, middle, last) = z_row + w / (2 ln(m^2/(f l))) * ln(l/f) of matching.rs:80-83.
+          f, m, l are finite and positive (C09_ls_deconv_no_nan), but z IS NaN when m^2 and f*l both overflow
+          (f, l, m >= 1.4e154), when f*l underflows to 0 while l/f overflows, or when m^2/(f l) rounds to 1 with
+          l = f: none of these is excluded by the types.  And a NaN z is not rejected but PANICS:
+          DriftTables::at (drift.rs:60-71) passes `z_abs > max` (false on NaN) and then
+          `.find(|(_, ub)| ub >= &z_abs).unwrap()` finds nothing (observed on the implementation: corpus/C18
+          `drift <t> <phi> 7ff8000000000000` -> panic).  Such amplitudes cannot be produced from i16 samples, the
+          shipped gains and the shipped response (an amplitude is at most |sample| / |response bin|), but that
+          bound is a numeric fact about the tables which is not proved here.
+   So the remaining hypothesis is (Z1), i.e. "no pad-hit centroid of the event is NaN" + C18's lookup totality. *)
+Theorem C09_vertex_total_partial :
+  forall (A F vpoint : Type) (sp_of : A -> res Cluster.point)
+    (bins : Cluster.point -> list Cluster.bin) (near : Cluster.point -> Cluster.point -> bool)
+    (p_r p_x p_y : Cluster.point -> F) (flt feq : F -> F -> bool)
+    (fcmp : F -> F -> option comparison) (fnan : F -> bool) (fadd fsub fmul : F -> F -> F)
+    (fhalf fabs : F -> F) (fzero : F)
+    (guess6 : list Cluster.point -> Cluster.point -> Cluster.point -> Cluster.point -> list F) (bump : F -> F)
+    (point_val closest : list F -> Cluster.point -> F)
+    (nm : (list F -> res F) -> list (list F) -> res (option (list F))) (sd_tol_ok : bool)
+    (teq : Fit.track F -> Fit.track F -> bool) (t_zb t_rad : Fit.track F -> F) (is_primary : Fit.track F -> bool)
+    (close_z : F -> F -> bool) (sumF : list F -> F) (mean_z : list (Fit.track F) -> F)
+    (sortP : list (Fit.track F) -> list (Fit.track F)) (vpoint_of : list F -> vpoint)
+    (vcost_val : list (Fit.track F) -> list F -> Fit.track F -> F) (vguess : F -> list F)
+    (tclosest : Fit.track F -> vpoint -> F),
+  (* C15 *) (forall p, NoDup (bins p)) ->
+  (* N1 *) (forall x y, fnan x = false -> fnan y = false -> fcmp x y <> None) ->
+  (* N2 *) (forall a b p, fnan (Fit.dev F Cluster.point p_r fsub fabs (fhalf (fadd (p_r a) (p_r b))) p) = false) ->
+  (* N3 *) (forall p q, fnan (point_val p q) = false) ->
+  (* N4 = V4 *) (forall (c : list F -> res F) s n,
+              (forall p, length p = n -> c p <> Panic /\ forall k, c p <> Err k) ->
+              Forall (fun v => length v = n) s -> s <> [] ->
+              exists v, nm c s = Ok (Some v) /\ length v = n) ->
+  (* N5 *) (forall pts f m l, length (guess6 pts f m l) = 6%nat) -> sd_tol_ok = true ->
+  (* std *) (forall l, Permutation (sortP l) l) ->
+  (* V1 *) (forall a b, fcmp (t_zb a) (t_zb b) <> None) ->
+  (* V2 *) (forall x y, fcmp (sumF (map t_rad x)) (sumF (map t_rad y)) <> None) ->
+  (* V3 *) (forall ts p t, fnan (vcost_val ts p t) = false) ->
+  (forall z, length (vguess z) = 3%nat) ->
+  (* V5 *) (forall t, teq t t = true) -> (forall a b, teq a b = true -> teq b a = true) ->
+  (forall a b c, teq a b = true -> teq b c = true -> teq a c = true) ->
+  forall avs : list A,
+  (* Z1 *) (forall a, In a avs -> sp_of a <> Panic) ->
+  exists v,
+    vertex_res sp_of (Cluster.cluster_spacepoints_pub bins near)
+      (Fit.fit_cluster_to_helix F Cluster.point p_r p_x p_y flt feq fcmp fnan fadd fsub fmul fhalf fabs fzero
+         guess6 bump point_val closest nm sd_tol_ok)
+      (Fit.find_vertices F vpoint fcmp fnan fadd fzero bump nm sd_tol_ok (Fit.track F) teq t_zb t_rad is_primary
+         close_z sumF mean_z sortP vpoint_of vcost_val vguess tclosest)
+      (Ok avs) = Ok v.
+Proof. exact vertex_total_partial_lemma. Qed.
+Print Assumptions C09_vertex_total_partial.
+
 (* the hypotheses are satisfiable on a non-trivial value, and the model is not vacuously total *)
 Example C09_avalanches_hypotheses_satisfiable :
   faer_shape solve_pad /\
@@ -145,4 +225,9 @@ Example C09_avalanches_model_can_panic : ex_run (firstn 101 ex_ws) ex_pads = Pan
 Proof. vm_compute. reflexivity. Qed.
 (* a vector handed to swap_remove(0) would panic if it were empty: the primitive is not total by itself *)
 Example C09_swap_remove_can_panic : unwrap (@swap_remove0 (N * N) []) = Panic.
+Proof. reflexivity. Qed.
+(* (Z1) is necessary: a stage that panics unwinds through filter_map(.. .ok()) *)
+Example C09_vertex_wrapper_propagates_panic :
+  vertex_res (A := unit) (SP := unit) (TR := unit) (V := unit) (fun _ => Panic) (fun l => Ok ([], l))
+             (fun _ => Ok tt) (fun l => Ok (None, l)) (Ok [tt]) = Panic.
 Proof. reflexivity. Qed.
